@@ -68,6 +68,7 @@ static struct {
 	double spawn_stall;	/* virtual seconds lost between alarm and spawn */
 	int spawn_fail;		/* errno for the job spawn, 0 = none */
 	int mail_fail;		/* errno for the sendmail spawn */
+	double mail_delay;	/* virtual seconds a (synchronous) delivery takes */
 	int open_fail_out;	/* OFILE cannot be opened */
 	uid_t uids[16];
 	gid_t gids[16];
@@ -104,6 +105,9 @@ static struct {
 	size_t z, cap;
 	int pid;
 	int spawned;
+	int handed_over;	/* echsx closed its end: the message is complete */
+	int killed;		/* signal that hit the mailer */
+	int reaped;
 } M;
 
 static int last_pipe[2] = {-1, -1};
@@ -205,6 +209,11 @@ __wrap_kill(pid_t pid, int sig)
 	}
 	if (pid <= 0) {
 		/* never signal process groups */
+		return 0;
+	}
+	if (pid == M.pid && M.spawned && !M.reaped) {
+		/* the mailer dies of it, whatever it held is lost */
+		M.killed = sig;
 		return 0;
 	}
 	errno = ESRCH;
@@ -473,9 +482,7 @@ __wrap_close(int fd)
 			}
 			__real_close(mfd_);
 		}
-		h_begin("mail", vt);
-		h_int("bytes", M.z);
-		h_end();
+		M.handed_over = 1;
 	}
 	return __real_close(fd);
 }
@@ -617,8 +624,36 @@ __wrap_waitpid(pid_t pid, int *st, int fl)
 {
 	(void)fl;
 	if (pid == M.pid && M.spawned) {
+		/* a synchronous delivery takes its time; signals interrupt
+		 * the wait as they would in reality */
+		double done = vt + X.mail_delay;
+
+		if (alarm_at >= 0. && alarm_at <= done && alarm_handler) {
+			void (*h)(int) = alarm_handler;
+
+			vt = alarm_at > vt ? alarm_at : vt;
+			alarm_at = -1.;
+			h_begin("alarmfire", vt);
+			h_str("during", "mail delivery", -1);
+			h_end();
+			h(SIGALRM);
+		}
+		if (M.killed) {
+			h_begin("mailerkilled", vt);
+			h_int("sig", M.killed);
+			h_int("bytes", M.z);
+			h_end();
+		} else {
+			vt = done;
+			if (M.handed_over) {
+				h_begin("mail", vt);
+				h_int("bytes", M.z);
+				h_end();
+			}
+		}
+		M.reaped = 1;
 		if (st) {
-			*st = 0;
+			*st = M.killed ? M.killed : 0;
 		}
 		return pid;
 	}
@@ -922,6 +957,8 @@ load(const char *fn)
 			X.spawn_stall = atof(tok[1]);
 		} else if (!strcmp(tok[0], "spawnfail")) {
 			X.spawn_fail = errno_of(tok[1]);
+		} else if (!strcmp(tok[0], "maildelay")) {
+			X.mail_delay = atof(tok[1]);
 		} else if (!strcmp(tok[0], "mailfail")) {
 			X.mail_fail = errno_of(tok[1]);
 		} else if (!strcmp(tok[0], "openfail")) {
